@@ -22,6 +22,15 @@ func suiteSerde(rn *runner, r *rng, tier string) {
 	if tier == "thorough" {
 		n = 30000
 	}
+	// ownership chains (suite_chain.go): serialized bytes the caller keeps stay as they are and deserialize to the same
+	// document again, whatever the Serializers are used for in between; recycled destinations disturb nobody else
+	nc := 1500
+	if tier == "thorough" {
+		nc = 20000
+	}
+	for i := 0; i < nc; i++ {
+		aliasChainCase(rn, r.fork(), 4+r.intn(12), "serde")
+	}
 	sA, sB := simdjson.NewSerializer(), simdjson.NewSerializer()
 	var dstReuse *simdjson.ParsedJson
 	for i := 0; i < n; i++ {
